@@ -94,7 +94,7 @@ contract(FF, "Framer.segue", "C11,C09", params=dict(self=Ref("Framer")),
 
 contract(FF, "Framer.recur", "C09", params=dict(self=Ref("Framer")),
          assumes=["forall(lambda j: implies(0 <= j and j < len(self.actives), self.actives[j].framer is self))"],
-         modifies=[havoc_all_but(FRAMER_RUN_FIELDS, keep=["self"], wf=[ACTIVES_OWNED])],
+         modifies=[framers_may_change(keep=["self"])],     # a recur act may be a `done` act: self.done False -> True
          loops={0: dict(inv=["ct_len() == _i",
                              "forall(lambda j: implies(0 <= j and j < _i, ct_is(j, 'Frame.recur', self.actives[j])))",
                              "self.actives is old(self.actives)", "seq_eq(self.actives, oldlist(self.actives))",
